@@ -8,20 +8,25 @@ parameter).  Every theorem holds for every `expand`, every plaintext column, ran
 secret, stream and error — no head-room is needed: the statements are equalities of the two
 computations, not of their values.
 
-/- Serialisation: `glwe_compressed_serialise_decompress`, `gglwe_compressed_serialise_decompress` (the latter is also
-   the wire format of GGSWCompressed and GLWETensorKeyCompressed) are theorems in C18's byte-level model; the
-   switching / automorphism / GGLWE→GGSW / blind-rotation wrappers (extra header fields, containers of the former)
-   are tied by bytes only.
-   FULL STATEMENT (not proved as stated): "for every compressed layout, decompress ∘ encrypt_compressed
-   = cell-wise standard encryption with the stored seeds".  Proved for the cell (`compressed_cell_eq`,
-   any plaintext column — the GGSW case), for GLWE (`glwe_decompress_eq`) and for every matrix routine
-   built on the shared loop (`compressed_cells_eq`: GGLWE, GGSW, and through them switching /
-   automorphism / tensor keys, which call `gglwe_compressed_encrypt_sk` on the caller's object).
-   The GGLWE→GGSW key (two levels of `branch()`) is reduced to the same loop by `g2g_subkeys_eq`
-   (after the repairs of the two findings: seeds stored in the object, decompression implemented). -/
+/- Serialisation commutes with decompression for ALL twelve compressed types, in C18's byte-level model:
+   `glwe_compressed_serialise_decompress`, `gglwe_compressed_serialise_decompress` (explicit forms),
+   `matrix_compressed_serialise_decompress` (8 matrix-shaped types), `vector_compressed_serialise_decompress` (GLWE, LWE),
+   `container_compressed_serialise_decompress` (GGLWE→GGSW key, blind-rotation key; new cursor-level round trip).
+   FULL STATEMENT: "for every compressed layout, decompress ∘ encrypt_compressed = cell-wise standard encryption with the
+   stored seeds".  Proved for the cell (`compressed_cell_eq`), for GLWE (`glwe_decompress_eq`), for every matrix routine built
+   on the shared loop (`compressed_cells_eq`: GGLWE, GGSW, switching / automorphism keys), for the routines with their scratch
+   temporary as the Rust runs them (`matrix_temporary_irrelevant`), the tensor key (`tensor_key_compressed_eq`), the
+   GGLWE→GGSW key (`g2g_subkeys_eq`) and the compressed blind-rotation key (`brk_subkeys_eq`).
+   LWE: no compressed encryption routine exists; `lwe_compress_decompress` / `lwe_decompress` (the routine with its
+   base2k/size assertions, every LWE dimension) are the inverse statement; `lwe_decompress_old_assert_counterexample`
+   documents the repaired finding (the old layout assertion refused every dimension other than 1).
+   Not reachable: compressed circuit-bootstrapping key (module not compiled). -/
 -/
 import Poulpy.Lemmas.CoreCmp
 import Poulpy.Lemmas.CoreSerDec
+import Poulpy.Lemmas.CoreCmpT
+import Poulpy.Lemmas.CoreSerAll
+import Poulpy.Lemmas.CoreSerCont
 
 namespace C19
 open CoreEnc
@@ -250,6 +255,300 @@ open Ser CoreSer in
 example : CoreSer.MatWF ⟨2, 1, 1, 2, 1, List.replicate 32 1⟩ ∧
     (cellsOfState ⟨[6, 3, 1, 1], [⟨2, List.replicate 64 2⟩], [.mat ⟨2, 1, 1, 2, 1, List.replicate 32 1⟩], 64⟩).map List.length = some 2 := by
   unfold CoreSer.MatWF; decide
+
+/-! ### serialisation commutes with decompression, every single-layout compressed type -/
+
+open Ser CoreSerAll in
+/-- **all eight matrix-shaped compressed types** (`GGLWECompressed`, `GGSWCompressed`, `GLWETensorKeyCompressed`,
+`GLWESwitchingKeyCompressed`, `LWESwitchingKeyCompressed`, `LWEToGLWEKeyCompressed`, `GLWEToLWEKeyCompressed`,
+`GLWEAutomorphismKeyCompressed`), with the reader and writer C18's tables assign to the type: for every admissible source `x`
+(header fields within their wire widths, `count` seeds of 32 bytes, well-formed consistent matrix) and every same-shaped
+receiver `s` with the capacity, in both build profiles: the write succeeds with bytes `bs`; the read of `bs ++ tail` succeeds,
+leaves `tail`, and returns a state with the source's header fields and seeds whose stored cells `(index, body limbs decoded
+from the bytes, seed words)` are the source's — hence `decompress_glwe` of every cell (`Core.decompressCell`, the object of
+`compressed_cells_eq`) gives the same ciphertext: `decompress (read (write c)) = decompress c`, cell by cell. -/
+theorem matrix_compressed_serialise_decompress (ty : String) (hty : ty ∈ compressedMatTypes) :
+    ∃ (r : Rd St Unit) (w : Profile → St → Outcome Bytes), readerOf ty = some r ∧ (∀ p, writerOf p ty = some (w p)) ∧
+      ∀ (p : Profile) (x s : St) (tail : Bytes), FieldsFit (hdrWidths ty) x.fields → s.fields.length = x.fields.length →
+        SeedsOK .many x s → LeafOK .mat x s →
+        ∃ bs rs', w p x = .ok bs ∧ r s (bs ++ tail) = .ok () rs' tail ∧ rs'.fields = x.fields ∧ rs'.seeds = x.seeds ∧
+          cellsOf rs' = cellsOf x ∧
+          ∀ (expand : List Nat → List Nat) (b n rank : Nat), decompressCells expand b n rank rs' = decompressCells expand b n rank x := by
+  simp only [compressedMatTypes, List.mem_cons, List.mem_nil_iff, or_false] at hty
+  rcases hty with rfl | rfl | rfl | rfl | rfl | rfl | rfl | rfl
+  all_goals first
+    | exact ⟨_, _, rfl, fun _ => rfl, mat_commutes' rt_gglwe_c⟩
+    | exact ⟨_, _, rfl, fun _ => rfl, mat_commutes' rt_switching_c⟩
+    | exact ⟨_, _, rfl, fun _ => rfl, mat_commutes' rt_autokey_c⟩
+
+open Ser CoreSerAll in
+/-- non-vacuity: an automorphism key compressed with `p = −5`, two cells -/
+example : "glwe_automorphism_key_compressed" ∈ compressedMatTypes ∧
+    (cellsOf ⟨[2 ^ 64 - 5, 6, 3, 1, 1], [⟨2, List.replicate 64 2⟩], [.mat ⟨2, 1, 1, 2, 1, List.replicate 32 1⟩], 64⟩).map List.length = some 2 ∧
+    FieldsFit (hdrWidths "glwe_automorphism_key_compressed") [2 ^ 64 - 5, 6, 3, 1, 1] := by
+  refine ⟨by decide, by decide, rfl, ?_⟩
+  intro i hi _
+  have : i = 0 ∨ i = 1 ∨ i = 2 ∨ i = 3 ∨ i = 4 := by simp [hdrWidths] at hi; omega
+  rcases this with rfl | rfl | rfl | rfl | rfl <;> decide
+
+open Ser CoreSerAll in
+/-- **the two vector-shaped compressed types** (`GLWECompressed`, `LWECompressed`): same statement; the receiver stands for
+the same compressed GLWE (`glweOfState`, hence the same `decompress_glwe`) and `decompress_lwe` of the received state into an
+LWE of any dimension `nl` equals that of the source. -/
+theorem vector_compressed_serialise_decompress (ty : String) (hty : ty ∈ compressedVecTypes) :
+    ∃ (r : Rd St Unit) (w : Profile → St → Outcome Bytes), readerOf ty = some r ∧ (∀ p, writerOf p ty = some (w p)) ∧
+      ∀ (p : Profile) (x s : St) (tail : Bytes), FieldsFit (hdrWidths ty) x.fields → s.fields.length = x.fields.length →
+        SeedsOK .one x s → LeafOK .vec x s → ∀ (expand : List Nat → List Nat) (nl : Nat),
+        ∃ bs rs', w p x = .ok bs ∧ r s (bs ++ tail) = .ok () rs' tail ∧ rs'.fields = x.fields ∧ rs'.seeds = x.seeds ∧
+          (CoreSer.glweOfState expand rs').bind Core.decompressGlwe = (CoreSer.glweOfState expand x).bind Core.decompressGlwe ∧
+          lweOfState expand nl rs' = lweOfState expand nl x := by
+  simp only [compressedVecTypes, List.mem_cons, List.mem_nil_iff, or_false] at hty
+  rcases hty with rfl | rfl
+  all_goals
+    refine ⟨_, _, rfl, fun _ => rfl, ?_⟩
+    intro p x s tail hf hl hs hleaf expand nl
+    obtain ⟨bs, rs', h1, h2, h3, h4, h5, h6⟩ := vec_commutes rt_glwe_c p x s tail hf hl hs hleaf expand nl
+    exact ⟨bs, rs', h1, h2, h3, h4, by rw [h5], h6⟩
+
+open Ser CoreSerAll in
+/-- non-vacuity: an LWE compressed state with two limbs decompresses -/
+example : "lwe_compressed" ∈ compressedVecTypes ∧
+    (lweOfState (fun s => s ++ [5, 6, 7, 8, 9, 10]) 2 ⟨[6, 3], [⟨1, List.replicate 32 2⟩], [.vec ⟨1, 1, 2, 2, List.replicate 16 1⟩], 0⟩).isSome := by
+  decide
+
+open Ser CoreSerCont in
+/-- **the two compressed container types** — `GGLWEToGGSWKeyCompressed` (`[keys.len()]` then one `GGLWECompressed` per key) and
+`BlindRotationKeyCompressed` (`Distribution`, `[keys.len()]`, then one `GGSWCompressed` per LWE coefficient) — with the reader and
+writer of C18's tables: for every list `xs` of admissible source elements and every receiver with the same number of elements,
+each with the capacity (`ElemOK`), in both build profiles: write succeeds; reading the written bytes (followed by any tail) at
+the moving cursors succeeds, leaves the tail, and returns a state with the source's header fields and seeds whose every element
+has the source's stored cells — so `decompress` of the received container equals `decompress` of the source, element by
+element, cell by cell. -/
+theorem container_compressed_serialise_decompress (mem : Nat) (p : Profile) (xs rs : List CElem) (hall : List.Forall₂ (ElemOK mem) xs rs)
+    (hlen : xs.length < 2 ^ 64) (mx : Nat) (tail : Bytes) :
+    (∃ r w, readerOf "gglwe_to_ggsw_key_compressed" = some r ∧ writerOf p "gglwe_to_ggsw_key_compressed" = some w ∧
+      ∃ bs rs', w (contState [] xs mx) = .ok bs ∧ r (contState [] rs mem) (bs ++ tail) = .ok () rs' tail ∧
+        rs'.fields = (contState [] xs mx).fields ∧ rs'.seeds = (contState [] xs mx).seeds ∧
+        contCellsOf rs' = contCellsOf (contState [] xs mx) ∧
+        ∀ expand b n rank, contDecompress expand b n rank rs' = contDecompress expand b n rank (contState [] xs mx)) ∧
+    (∀ (tag pl t0 p0 : Nat), DistCanon tag pl →
+      ∃ r w, readerOf "blind_rotation_key_compressed" = some r ∧ writerOf p "blind_rotation_key_compressed" = some w ∧
+      ∃ bs rs', w (contState [tag, pl] xs mx) = .ok bs ∧ r (contState [t0, p0] rs mem) (bs ++ tail) = .ok () rs' tail ∧
+        rs'.fields = (contState [tag, pl] xs mx).fields ∧ rs'.seeds = (contState [tag, pl] xs mx).seeds ∧
+        contCellsOf rs' = contCellsOf (contState [tag, pl] xs mx) ∧
+        ∀ expand b n rank, contDecompress expand b n rank rs' = contDecompress expand b n rank (contState [tag, pl] xs mx)) := by
+  constructor
+  · obtain ⟨bs, rs', h1, h2, h3, h4, h5⟩ := g2g_rt mem p xs rs hall hlen mx tail
+    exact ⟨_, _, rfl, rfl, bs, rs', h1, h2, h3, h4, h5, fun _ _ _ _ => by unfold contDecompress; rw [h5]⟩
+  · intro tag pl t0 p0 hd
+    obtain ⟨bs, rs', h1, h2, h3, h4, h5⟩ := brk_rt mem p xs rs hall hlen tag pl t0 p0 hd mx tail
+    exact ⟨_, _, rfl, rfl, bs, rs', h1, h2, h3, h4, h5, fun _ _ _ _ => by unfold contDecompress; rw [h5]⟩
+
+open Ser CoreSerCont in
+/-- non-vacuity: a container of two one-cell elements (admissible, receiver with capacity) and its decoded view -/
+example : List.Forall₂ (ElemOK 64) [⟨6, 3, 1, 1, 1, List.replicate 32 2, ⟨2, 1, 1, 1, 1, List.replicate 16 1⟩⟩, ⟨6, 3, 1, 1, 1, List.replicate 32 4, ⟨2, 1, 1, 1, 1, List.replicate 16 5⟩⟩]
+      [⟨0, 0, 0, 0, 0, [], ⟨2, 1, 1, 1, 1, List.replicate 16 0⟩⟩, ⟨0, 0, 0, 0, 0, [], ⟨2, 1, 1, 1, 1, List.replicate 16 0⟩⟩] ∧
+    ((contCellsOf (contState [] [⟨6, 3, 1, 1, 1, List.replicate 32 2, ⟨2, 1, 1, 1, 1, List.replicate 16 1⟩⟩, ⟨6, 3, 1, 1, 1, List.replicate 32 4, ⟨2, 1, 1, 1, 1, List.replicate 16 5⟩⟩] 64)).map
+      (fun o => o.map List.length)) = [some 1, some 1] := by
+  refine ⟨?_, by decide⟩
+  refine List.Forall₂.cons ?_ (List.Forall₂.cons ?_ List.Forall₂.nil) <;>
+    (unfold ElemOK MatRT MatWF MatZnx.Inv; decide)
+
+/-! ### the scratch temporary, tensor keys, blind-rotation keys, LWE -/
+
+/-- **the matrix routines as the Rust runs them** (`Core.gglweEncryptCompressedT` / `Core.ggswEncryptCompressedT`: one temporary
+plaintext taken from scratch, zeroed *entirely*, filled on the gadget limb and normalised in place at every iteration) compute
+exactly the cell list of `gglweEncryptCompressed` / `ggswEncryptCompressed`, whatever the scratch held on entry — in particular
+for scalars with coefficients ≥ 2^(base2k−1), whose normalisation carries into the limb above the gadget limb.  Every theorem
+about the latter (`compressed_cells_eq`, the index theorems) therefore holds for what the driver executes. -/
+theorem matrix_temporary_irrelevant {n size : Nat} (tmp0 : Col) (hl : tmp0.length = size) (hw : WF n tmp0)
+    (bits b kxe rankOut rankIn dnum dsize : Nat) (pts : List Poly) (hpts : ∀ col, col < rankIn → (pts.getD col []).length = n)
+    (pt : Poly) (hpt : pt.length = n) (sk : List Poly) (expand : List Nat → List Nat) (seedXa : List Nat) (es : List Poly) :
+    Core.gglweEncryptCompressedT tmp0 bits b n size kxe rankOut rankIn dnum dsize pts sk expand seedXa es
+      = Core.gglweEncryptCompressed bits b n size kxe rankOut rankIn dnum dsize pts sk expand seedXa es ∧
+    Core.ggswEncryptCompressedT tmp0 bits b n size kxe rankOut dnum dsize pt sk expand seedXa es
+      = Core.ggswEncryptCompressed bits b n size kxe rankOut dnum dsize pt sk expand seedXa es :=
+  ⟨gglweEncryptCompressedT_eq tmp0 hl hw bits b kxe rankOut rankIn dnum dsize pts hpts sk expand seedXa es,
+   ggswEncryptCompressedT_eq tmp0 hl hw bits b kxe rankOut dnum dsize pt hpt sk expand seedXa es⟩
+
+/-- non-vacuity: radix 2^2, a scalar with coefficient 3 ≥ 2^(b−1) (carry into the limb above), two rows, garbage temporary -/
+example : (Core.gglweEncryptCompressedT [[7, 7], [9, 9], [5, 5]] 64 2 2 3 6 1 1 2 1 [[3, -2]] [[1, -1]] (fun s => s ++ [1, 2, 3, 4, 5, 6, 7, 8, 9, 10])
+      [1, 2, 3, 4, 5, 6, 7, 8] [[0, 1], [1, 0]]).map (fun o => o.map (fun c => (c.1, c.2.body, c.2.seed)))
+    = (Core.gglweEncryptCompressed 64 2 2 3 6 1 1 2 1 [[3, -2]] [[1, -1]] (fun s => s ++ [1, 2, 3, 4, 5, 6, 7, 8, 9, 10]) [1, 2, 3, 4, 5, 6, 7, 8]
+      [[0, 1], [1, 0]]).map (fun o => o.map (fun c => (c.1, c.2.body, c.2.seed)))
+    ∧ (Core.gglweEncryptCompressed 64 2 2 3 6 1 1 2 1 [[3, -2]] [[1, -1]] (fun s => s ++ [1, 2, 3, 4, 5, 6, 7, 8, 9, 10]) [1, 2, 3, 4, 5, 6, 7, 8] [[0, 1], [1, 0]]).isSome := by
+  decide
+
+/-- **`GLWETensorKeyCompressed`**: `glwe_tensor_key_compressed_encrypt_sk` is the compressed GGLWE encryption of the tensor
+secret (`s_i·s_j`, `i ≤ j`, at input column `i·rank + j − i(i+1)/2`, normalised to one limb of radix 2^17 — coefficients up to
+2^16 in absolute value, far above 2^(base2k−1) at small radices) with `rank_in` = number of pairs; so cell `(row, col)` of the
+tensor key falls under `compressed_cells_eq` with seed index `row·rank_in + col` (`gglwe_seed_index`). -/
+theorem tensor_key_compressed_eq {n size : Nat} (tmp0 : Col) (hl : tmp0.length = size) (hw : WF n tmp0)
+    (bits b kxe rank dnum dsize : Nat) (hbits : bits = 64 ∨ bits = 128) (sk : List Poly) (expand : List Nat → List Nat)
+    (seedXa : List Nat) (es : List Poly) :
+    Core.tensorKeyEncryptCompressedT tmp0 bits b n size kxe rank dnum dsize sk expand seedXa es
+      = (Core.tensorSecret bits n sk).bind (fun pts =>
+          Core.gglweEncryptCompressed bits b n size kxe rank pts.length dnum dsize pts sk expand seedXa es) := by
+  unfold Core.tensorKeyEncryptCompressedT
+  cases ht : Core.tensorSecret bits n sk with
+  | none => rfl
+  | some pts =>
+    simp only [Option.bind_some]
+    apply gglweEncryptCompressedT_eq tmp0 hl hw
+    intro col hc
+    apply tensorSecret_length bits n hbits sk pts ht
+    rw [List.getD_eq_getElem?_getD, List.getElem?_eq_getElem hc]
+    simp
+
+/-- non-vacuity: rank 2 (three pairs, in the order (0,0), (0,1), (1,1)) -/
+example : Core.tensorSecret 64 2 [[1, 1], [0, -1]] = some [[0, 2], [1, -1], [-1, 0]] ∧
+    ((Core.tensorKeyEncryptCompressedT [[0, 0], [0, 0]] 64 2 2 2 4 2 1 1 [[1, 1], [0, -1]] (fun s => s ++ [1, 2, 3, 4, 5, 6, 7, 8, 9, 10, 11, 12, 13, 14])
+      [1, 2, 3, 4] [[0, 1], [1, 0], [0, 0]]).map (fun o => o.map (·.1))) = some [0, 1, 2] := by decide
+
+/-- **`BlindRotationKeyCompressed` (CGGI, standard and block-binary)**: GGSW `i` is `ggsw_compressed_encrypt_sk` of the constant
+polynomial `sk_lwe[i]` under the seed that is the `i`-th `new_seed()` of `Source::new(seed_xa)` (words `4i … 4i+3`), with the
+error stream continuing where GGSW `i−1` stopped — so every cell of every GGSW falls under `compressed_cells_eq`
+(through `matrix_temporary_irrelevant`). -/
+theorem brk_subkeys_eq (bits b n size kxe rank dnum : Nat) (sk : List Poly) (expand : List Nat → List Nat) (tmp0 : Col) :
+    ∀ (skLwe : List Int) (top : List Nat) (es : List Poly) (out : List (List (Nat × Core.CellC))),
+      Core.brkLoop bits b n size kxe rank dnum sk expand tmp0 skLwe top es = some out →
+      out.length = skLwe.length ∧
+      ∀ (i : Nat) (si : Int), skLwe[i]? = some si →
+        ∃ cells, out[i]? = some cells ∧
+          Core.ggswEncryptCompressedT tmp0 bits b n size kxe rank dnum 1 (si :: List.replicate (n - 1) 0) sk expand ((top.drop (4 * i)).take 4)
+            (es.drop ((out.take i).map List.length).sum) = some cells := by
+  intro skLwe
+  induction skLwe with
+  | nil => intro top es out h; simp [Core.brkLoop] at h; subst h; simp
+  | cons s0 rest ih =>
+    intro top es out h
+    unfold Core.brkLoop at h
+    cases hn : Sampling.newSeed top with
+    | none => simp [hn] at h
+    | some q =>
+      obtain ⟨seed, top'⟩ := q
+      simp only [hn] at h
+      cases hc : Core.ggswEncryptCompressedT tmp0 bits b n size kxe rank dnum 1 (s0 :: List.replicate (n - 1) 0) sk expand seed es with
+      | none => simp [hc] at h
+      | some cells =>
+        simp only [hc] at h
+        cases hr : Core.brkLoop bits b n size kxe rank dnum sk expand tmp0 rest top' (es.drop cells.length) with
+        | none => simp [hr] at h
+        | some out' =>
+          simp only [hr, Option.some.injEq] at h
+          subst h
+          obtain ⟨il, ic⟩ := ih top' (es.drop cells.length) out' hr
+          have hseed : seed = top.take 4 ∧ top' = top.drop 4 := by
+            match top, hn with
+            | a :: b' :: c :: d :: r, hn => simp [Sampling.newSeed] at hn; simp [hn.1.symm, hn.2.symm]
+          refine ⟨by simp [il], ?_⟩
+          intro i si hp
+          cases i with
+          | zero =>
+            simp only [List.getElem?_cons_zero, Option.some.injEq] at hp
+            subst hp
+            exact ⟨cells, by simp, by simpa [hseed.1] using hc⟩
+          | succ j =>
+            simp only [List.getElem?_cons_succ] at hp
+            obtain ⟨cs, h1, h2⟩ := ic j si hp
+            refine ⟨cs, by simpa using h1, ?_⟩
+            rw [hseed.2, List.drop_drop, List.drop_drop] at h2
+            have e1 : 4 + 4 * j = 4 * (j + 1) := by omega
+            have e2 : cells.length + ((out'.take j).map List.length).sum = (((cells :: out').take (j + 1)).map List.length).sum := by
+              simp
+            rw [e1, e2] at h2
+            exact h2
+
+example : (Core.brkEncryptCompressed 64 3 1 2 5 1 1 [1, 0] [[1]] (fun s => s.map (· + 1) ++ [7, 7, 7, 7, 7, 7, 7, 7]) [[0], [0]]
+    [0, 0, 0, 0, 1, 1, 1, 1, 2] [[0], [1], [0], [1]]).map (fun o => o.map (fun c => c.map (fun x => x.2.seed)))
+    = some [[[2, 2, 2, 2], [7, 7, 7, 7]], [[3, 3, 3, 3], [7, 7, 7, 7]]] := by decide
+
+/-- **seed derivation of the two-level keys (GGLWE→GGSW key, blind-rotation key) is injective**: with `C` cells per sub-key,
+sub-key `i` / cell `j` sits at global position `i·C + j`; distinct (sub-key, cell) pairs get distinct positions, i.e. distinct
+`branch()` / `new_seed()` draws (level 1: word block `4i` of `Source::new(seed_xa)`; level 2: word block `4j` of
+`Source::new(seed_i)`) -/
+theorem two_level_seed_index_injective (C : Nat) {i j i' j' : Nat} (hj : j < C) (hj' : j' < C) (h : i * C + j = i' * C + j') :
+    i = i' ∧ j = j' :=
+  seed_index_injective C hj hj' h
+
+example : (0 * 4 + 3 = 0 * 4 + 3) ∧ ¬ (1 * 4 + 0 = 0 * 4 + 3) := by decide
+
+/-- **`decompress_lwe` inverts "keep the bodies and the mask seed" of a standard LWE ciphertext**: for every LWE ciphertext
+produced by `lwe_encrypt_sk` with `source_xa = Source::new(seed)`, `decompress_lwe (bodies, seed)` is that ciphertext, limb for
+limb (poulpy-core has no compressed LWE encryption routine; this is the statement its layout and `decompress_lwe` support). -/
+theorem lwe_compress_decompress (b nl size kxe : Nat) (stream : List Nat) (filled : Col) (rest : List Nat)
+    (hf : Sampling.vecFillUniform b (nl + 1) size stream = some (filled, rest)) (hfl : filled.length = size)
+    (pt : List Int) (ptB : Nat) (sk : Poly) (e : Int) (ct : Col) (h : Core.lweEncryptSk b size kxe filled pt ptB sk e = some ct) :
+    Core.decompressLwe b nl (Core.lweBodies ct) stream = some ct := by
+  unfold Core.lweEncryptSk at h
+  split at h
+  · simp at h
+  · simp only [] at h
+    split at h
+    · simp at h
+    · rename_i t1 _
+      simp only [Option.some.injEq] at h
+      subst h
+      have hlen : (Core.lweBodies ((List.range size).map (fun i =>
+          ((normalizeAssignCol b t1 1).getD i []).getD 0 0 :: (filled.getD i []).drop 1))).length = size := by
+        simp [Core.lweBodies]
+      unfold Core.decompressLwe
+      rw [hlen, hf]
+      simp only [Option.map_some, Option.some.injEq]
+      apply List.ext_getElem
+      · simp [Core.lweBodies, hfl]
+      · intro i h1 h2
+        simp only [List.length_map, List.length_range] at h2
+        simp [Core.lweBodies, List.getD_eq_getElem?_getD, List.getElem?_eq_getElem (show i < filled.length by omega)]
+
+example : (Sampling.vecFillUniform 3 3 2 [1, 2, 3, 4, 5, 6, 7]).isSome ∧
+    ((Sampling.vecFillUniform 3 3 2 [1, 2, 3, 4, 5, 6, 7]).bind (fun f => Core.lweEncryptSk 3 2 5 f.1 [2] 3 [1, -1] (-1))).isSome := by decide
+
+/-- **`decompress_lwe` as it is (after repair e6c90e8), every LWE dimension**: for every `lwe_encrypt_sk` ciphertext with
+`source_xa = Source::new(seed)` and a receiver of the same radix and number of limbs, `decompress_lwe (bodies, seed)` returns that
+ciphertext, limb for limb; a receiver with another radix or another number of limbs is refused (panic outcome). -/
+theorem lwe_decompress (b nl size kxe : Nat) (stream : List Nat) (filled : Col) (rest : List Nat)
+    (hf : Sampling.vecFillUniform b (nl + 1) size stream = some (filled, rest)) (hfl : filled.length = size)
+    (pt : List Int) (ptB : Nat) (sk : Poly) (e : Int) (ct : Col) (h : Core.lweEncryptSk b size kxe filled pt ptB sk e = some ct) :
+    Core.decompressLweRust b size b nl (Core.lweBodies ct) stream = some ct ∧
+    ∀ resB resSize, resB ≠ b ∨ resSize ≠ size → Core.decompressLweRust resB resSize b nl (Core.lweBodies ct) stream = none := by
+  have hlen : (Core.lweBodies ct).length = size := by
+    have hd := lwe_compress_decompress b nl size kxe stream filled rest hf hfl pt ptB sk e ct h
+    unfold Core.decompressLwe at hd
+    cases hv : Sampling.vecFillUniform b (nl + 1) (Core.lweBodies ct).length stream with
+    | none => simp [hv] at hd
+    | some r =>
+      simp only [hv, Option.map_some, Option.some.injEq] at hd
+      have h1 : ct.length = (Core.lweBodies ct).length := by simp [Core.lweBodies]
+      unfold Core.lweEncryptSk at h
+      split at h
+      · simp at h
+      · simp only [] at h
+        split at h
+        · simp at h
+        · simp only [Option.some.injEq] at h
+          rw [← h1, ← h]; simp
+  constructor
+  · unfold Core.decompressLweRust
+    rw [if_neg (by rw [hlen]; simp)]
+    exact lwe_compress_decompress b nl size kxe stream filled rest hf hfl pt ptB sk e ct h
+  · intro resB resSize hne
+    unfold Core.decompressLweRust
+    rw [if_pos (by rw [hlen]; exact hne)]
+
+/-- non-vacuity: dimension 2, two limbs; accepted with the object's radix and size, refused with another radix or size -/
+example : ((Sampling.vecFillUniform 3 3 2 [1, 2, 3, 4, 5, 6, 7]).bind (fun f => Core.lweEncryptSk 3 2 5 f.1 [2] 3 [1, -1] (-1))) = some [[3, -2, -1], [0, 1, 2]] ∧
+    Core.decompressLweRust 3 2 3 2 (Core.lweBodies [[3, -2, -1], [0, 1, 2]]) [1, 2, 3, 4, 5, 6, 7] = some [[3, -2, -1], [0, 1, 2]] ∧
+    Core.decompressLweRust 4 2 3 2 (Core.lweBodies [[3, -2, -1], [0, 1, 2]]) [1, 2, 3, 4, 5, 6, 7] = none ∧
+    Core.decompressLweRust 3 3 3 2 (Core.lweBodies [[3, -2, -1], [0, 1, 2]]) [1, 2, 3, 4, 5, 6, 7] = none := by decide
+
+/-- **documentation of the repaired finding (the OLD assertion)**: with `assert_eq!(res.lwe_layout(), other.lwe_layout())` an LWE of
+dimension 2 was refused although its decompression is well defined and equal to the standard ciphertext. -/
+theorem lwe_decompress_old_assert_counterexample :
+    ∃ (ct : Col), (Sampling.vecFillUniform 3 3 2 [1, 2, 3, 4, 5, 6, 7]).bind (fun f => Core.lweEncryptSk 3 2 5 f.1 [2] 3 [1, -1] (-1)) = some ct ∧
+      Core.decompressLwe 3 2 (Core.lweBodies ct) [1, 2, 3, 4, 5, 6, 7] = some ct ∧
+      Core.decompressLweOldAssert 3 2 (Core.lweBodies ct) [1, 2, 3, 4, 5, 6, 7] = none := by
+  refine ⟨[[3, -2, -1], [0, 1, 2]], by decide, by decide, by decide⟩
 
 /-! ### the GGLWE→GGSW key: two levels of branching -/
 
